@@ -69,10 +69,15 @@ CLAIMED = {
  "C10": C('Proved on the server model: C10_refused_unless_available, startTLS_success / C10_server_fresh (after a successful upgrade: no session, greeting name, authentication or envelope; the old session logged out; a fresh wire), C10_no_plaintext_in_tls (octets buffered behind STARTTLS are never read inside TLS). Implementation: real in-process TLS upgrades with commands (incl. EHLO preludes) injected behind STARTTLS; client half: NewClientStartTLS over net.Pipe and package-level SendMail over loopback TCP against a live scripted server {no STARTTLS, 454/501/421/EOF, 220 + injected replies, 220 then plaintext/alert/HTTP/silence, real handshake, inner EHLO refused}, judged (nothing but EHLO/HELO/STARTTLS/QUIT in plaintext, EHLO renegotiated, nothing succeeds without TLS) and compared with the Lean client model.',
           'DESIGN.md 0.3 + 7 C10', 'Lean 4 proof (server upgrade) + monitors + differential correspondence (conv with real TLS, cstls probes)',
           'crypto/tls is real in the probes and abstracted in the model (handshake succeeds iff the peer speaks TLS; the session is a fresh stream)'),
- "C11": C("Every short string over 16 syntactically significant symbols and mutations of valid paths, classified by an independent RFC 5321 "
-          "reference grammar (valid => exact mailbox, invalid(class) => refused); parser entry points and parameter handling compared with the model.",
-          "DESIGN.md 7 C11", "Lean 4 reference grammar as executable judge + differential correspondence (parse, conv probes)",
-          "four lenient-parser classes are known findings; theorems pending"),
+ "C11": C("Proved on the parser model: C11_exact_mailbox (for every `<local@domain>` with a non-empty dot-string local part and a non-empty "
+          "domain not ending in '@' - the class every real client sends - the parser returns exactly that mailbox and leaves exactly what follows "
+          "'>' for the parameter parser), C11_special_refused (a special character in an unquoted local part refuses the path, whatever "
+          "follows), C11_null_sender; with C12_disabled_504 for parameters of disabled extensions. Implementation: every short string over 16 "
+          "syntactically significant symbols and mutations of valid paths, classified by an independent RFC 5321 reference grammar "
+          "(valid => exact mailbox, invalid(class) => refused); parser entry points and parameter handling (good, bad, disabled, duplicated, "
+          "lower-case, long-s spelled values) compared with the model.",
+          "DESIGN.md 0.3 + 7 C11", "Lean 4 proof (path parser on the dot-string class) + reference grammar as executable judge + differential correspondence (parse, conv probes)",
+          "quoted local parts, source routes, address literals and the decoded parameter values are decided by the reference-grammar judge and the correspondence; four lenient-parser classes are known findings"),
  "C12": C("C12_caps_exact proved for all configurations and TLS states (all limits and mechanism lists), C12_ehlo_reply, C12_helo_none, "
           "C12_disabled_504 proved; the complete 3072-point configuration space enumerated on the real server (TLS-active points over a real "
           "handshake) with one probe command per extension.",
@@ -130,7 +135,7 @@ CLAIMED = {
 }
 # properties whose check audits at least one machine-checked theorem today (the others are claimed at the level of
 # their correspondence/monitor check until their theorems land)
-PROVED = {"C01", "C02", "C03", "C04", "C05", "C06", "C07", "C08", "C09", "C10", "C12", "C13", "C14", "C15", "C16", "C17", "C18", "C19", "C20"}
+PROVED = {"C01", "C02", "C03", "C04", "C05", "C06", "C07", "C08", "C09", "C10", "C11", "C12", "C13", "C14", "C15", "C16", "C17", "C18", "C19", "C20"}
 NA_REASON = "check not built yet (work in progress, see DESIGN.md section 10)"
 
 m = {"version": 1, "setup_cmd": "./setup.sh",
